@@ -167,7 +167,7 @@ func (o *out) removals(dir, fn, lean string, names ...string) {
 
 func init() {
 	gens["C16"] = func(o *out) {
-		o.removals("mod/modcache", "Cache.Fetch", "fx_Fetch", "parentDir", "tmpPrefix", "entries", "dirExists")
+		o.removals("mod/modcache", "Cache.Fetch", "fx_Fetch", "parentDir", "tmpPrefix", "entries", "dirExists", "suffix")
 		o.effects("mod/modcache", "Cache.Fetch", "fx_Fetch")
 		o.effects("mod/modcache", "Cache.FetchFromCache", "fx_FetchFromCache")
 		o.effects("mod/modcache", "Cache.downloadZip", "fx_downloadZip")
@@ -183,7 +183,7 @@ func init() {
 		o.pins("mod/modcache", "Cache.Fetch", "Cache.FetchFromCache", "Cache.downloadZip", "Cache.downloadZip1",
 			"Cache.downloadDir", "Cache.cachePath", "Cache.lockVersion", "Cache.writeDiskCache",
 			"Cache.readDiskCache", "Cache.readDiskModFile", "Cache.writeDiskModFile",
-			"Cache.fetchModFileData", "Cache.downloadModFile1", "Cache.ModFile", "tempFile", "RemoveAll",
+			"Cache.fetchModFileData", "Cache.downloadModFile1", "Cache.ModFile", "tempFile", "RemoveAll", "isAllDigits", "isVersionDir",
 			"downloadDirPartialError.Is")
 		o.pins("mod/modzip", "Unzip")
 		o.pins("internal/par", "ErrCache.Do", "Cache.Do")
